@@ -103,6 +103,16 @@ def spec_c11(h, segs, extras, states):
         allowed = None
     if allowed is not None and max(allowed) < t_end:
         fails.append(("retried until one succeeds", f"no _open_connection call at {sorted(allowed)} (history ends at {t_end})"))
+    # --- a failed attempt leaves the connection in the state it was in before it: the pending await chain of the retry task in
+    #     the back-off after attempt k+1 is the one after attempt k (else the routine dies after enough failures) ---------
+    backs = [x.get("rdepth", 0) for i, x in enumerate(extras)
+             if states[i]["c"] == "0" and x.get("rdepth", 0) and any(o[1] == "open" and o[2] == 1 for o in x["raw"])]
+    for a, b, c3 in zip(backs, backs[1:], backs[2:]):
+        if a and a < b < c3:
+            fails.append(("a failing attempt is retried after the back-off interval until one succeeds",
+                          f"the retry task's pending await chain grows with every failed attempt ({a}, {b}, {c3} frames after three "
+                          f"consecutive failures): the state after a failed attempt is not the state before it"))
+            break
     # --- after re-establishment: devices see True, producer sends at once on the new transport -----
     known = {}
     by_time = {}
